@@ -138,9 +138,9 @@ def run_programs(prop: str, programs: list[dict], res: Result, *, eager_every: i
     return [prog for prog, r in runs if not r.deadlock and nontrivial(prop, r)]
 
 
-def run(prop: str, ctx: Ctx, quick: int = 1500, thorough: int = 25000) -> Result:
+def run(prop: str, ctx: Ctx, quick: int = 1500, thorough: int = 90000) -> Result:
     res = Result(rule=f"random task/scope/group programs (profile {prop}) interpreted on the real AnyIO "
-                      f"code; every API call and loop handle replayed in the Lean kernel model; a case "
+                      f"code (quick 1800, thorough 108000 programs + an oracle-only uvloop leg); every API call and loop handle replayed in the Lean kernel model; a case "
                       f"is non-trivial if {RULES[prop]}; distinct = distinct event traces")
     prof = PROFILES[prop]
     progs = list(load_corpus(prop))
